@@ -101,7 +101,8 @@ class Product:
                 else: pr.out['discharged'] += 1
                 continue
             eqs = []
-            try: deep_eq(view(a), view(b), eqs, 'outcome')
+            vs, vn = view if isinstance(view, tuple) else (view, view)
+            try: deep_eq(vs(a), vn(b), eqs, 'outcome')
             except Mismatch as e:
                 r, m = pr.check(conds, [])
                 if r == 'sat': cand('outcome-structure', str(e)[:300], m)
@@ -154,7 +155,7 @@ def worker(args):
                     st1, P1 = Is.make_pre(opc); st2, P2 = In.make_pre(opc)
                     inv = Is.region_assumptions()
                     st1.pc += [c for c in inv if not any(c.eq(x) for x in st1.pc)]; st2.pc = list(st1.pc)
-                    X.compare(f'interp/{name}', Is.step_paths(st1), In.step_paths(st2), view(Is),
+                    X.compare(f'interp/{name}', Is.step_paths(st1), In.step_paths(st2), (view(Is), view(In)),
                               lambda m, P=P1, opc=opc: dict(opc=opc, dst=obl.mval(m, P.dst), src=obl.mval(m, P.src), off=obl.mval(m, P.off), imm=obl.mval(m, P.imm)))
                 except Unsupported as e: pr.out['errors'].append(f'interp {name}: {e}')
             note(Is.eng, ms, 'std'); note(In.eng, mn, 'no_std')
@@ -167,7 +168,7 @@ def worker(args):
                     st1, P1 = Vs.make_pre(opc); st2, P2 = Vn.make_pre(opc)
                     def view(V_):
                         return lambda p: dict(path_view_generic(p), nxt=(p.st.frames[0].locals[V_.ip].t if p.kind == 'cut' else None))
-                    X.compare(f'verifier/opcode-{opc:#04x}', Vs.step_paths(st1), Vn.step_paths(st2), view(Vs),
+                    X.compare(f'verifier/opcode-{opc:#04x}', Vs.step_paths(st1), Vn.step_paths(st2), (view(Vs), view(Vn)),
                               lambda m, P=P1, opc=opc: dict(opc=opc, regbyte=obl.mval(m, P.regbyte), off=obl.mval(m, P.off), imm=obl.mval(m, P.imm), pc=obl.mval(m, P.pc), n=obl.mval(m, P.n)))
                 except Unsupported as e: pr.out['errors'].append(f'verifier {opc}: {e}')
             note(Vs.eng, ms, 'std'); note(Vn.eng, mn, 'no_std')
@@ -178,7 +179,7 @@ def worker(args):
                     P1, ps = Ds.step(opc); P2, pn = Dn.step(opc)
                     def view(D_):
                         return lambda p: dict(path_view_generic(p), nxt=(p.st.frames[0].locals[D_.ip].t if p.kind == 'cut' else None))
-                    X.compare(f'disasm/{spec.opname(opc)}', ps, pn, view(Ds), lambda m, P=P1, opc=opc: dict(opc=opc, regbyte=obl.mval(m, P.regbyte), off=obl.mval(m, P.off), imm=obl.mval(m, P.imm)))
+                    X.compare(f'disasm/{spec.opname(opc)}', ps, pn, (view(Ds), view(Dn)), lambda m, P=P1, opc=opc: dict(opc=opc, regbyte=obl.mval(m, P.regbyte), off=obl.mval(m, P.off), imm=obl.mval(m, P.imm)))
                 except Unsupported as e: pr.out['errors'].append(f'disasm {opc}: {e}')
             note(Ds.eng, ms, 'std'); note(Dn.eng, mn, 'no_std')
         elif comp == 'asm':
@@ -203,17 +204,54 @@ def worker(args):
                 try:
                     if opc == 'prologue':
                         Js.head_state(); Jn.head_state()
-                        X.compare('jit/prologue', Js.prologue_paths, Jn.prologue_paths, view(Js)); continue
+                        X.compare('jit/prologue', Js.prologue_paths, Jn.prologue_paths, (view(Js), view(Jn))); continue
                     A, _, VP = Vf.accept_formula(opc)
                     st1, P1 = Js.step(opc); st2, P2 = Jn.step(opc)
                     n = Js.prog_len / 8; off0 = Js.jm_offset()
                     inv = [alen, simplify(A), ULT(P1.pc, n), Js.nslots == n + 1, ULE(off0, 1 << 32), ULE(Js.prog_len, 8000000), Js.jm_we(), UGE(Js.jm_len(), off0 + 64), ULE(Js.jm_len(), 1 << 40),
                            ULE(BitVec('jm.contents.ptr', 64), 1 << 62), ULE(BitVec('pc_locs.ptr', 64), 1 << 62)]
                     st1.pc += inv; st2.pc += inv
-                    X.compare(f'jit/{spec.opname(opc)}', Js.eng.explore(st1, cuts={(Js.f.name, Js.head)}), Jn.eng.explore(st2, cuts={(Jn.f.name, Jn.head)}), view(Js),
+                    X.compare(f'jit/{spec.opname(opc)}', Js.eng.explore(st1, cuts={(Js.f.name, Js.head)}), Jn.eng.explore(st2, cuts={(Jn.f.name, Jn.head)}), (view(Js), view(Jn)),
                               lambda m, P=P1, opc=opc: dict(opc=opc, regbyte=obl.mval(m, P.regbyte), off=obl.mval(m, P.off), imm=obl.mval(m, P.imm)))
                 except Unsupported as e: pr.out['errors'].append(f'jit {opc}: {e}')
             note(Js.eng, ms, 'std'); note(Jn.eng, mn, 'no_std')
+        elif comp == 'lib':
+            import libsym
+            def named(v, feats):
+                """lazily materialised structs keyed by declared field name (indices differ between feature sets)"""
+                if isinstance(v, LazyObj):
+                    names = tt.field_names(re.sub(r"^&('\w+\s+)?(mut\s+)?", '', (v.ty or '').strip()), feats) or []
+                    return {'$obj': v.name, **{(names[k] if isinstance(k, int) and k < len(names) else str(k)): named(x, feats) for k, x in v.fields.items() if not (isinstance(k, int) and k < len(names) and names[k] == 'custom_exec_memory')}}
+                if isinstance(v, Agg): return [named(x, feats) for x in v.f]
+                if isinstance(v, Enum): return Enum(v.d, {k: [named(x, feats) for x in p] for k, p in v.payload.items()}, v.ty)
+                if isinstance(v, (list, tuple)): return [named(x, feats) for x in v if not is_exec_mem(x)]
+                if isinstance(v, Opaque): return Opaque(v.tag, tuple(named(x, feats) for x in v.args))
+                return v
+            def is_exec_mem(a): return isinstance(a, Slice) and 'custom_exec_memory' in str(a.base)
+            def view(L, feats):
+                def v(p):
+                    d = dict(kind=p.kind, events=[(e[0], [named(a, feats) for a in e[1] if not is_exec_mem(a)]) for e in p.st.events])
+                    if p.kind == 'return':
+                        d['ret'] = named(p.payload, feats)
+                        sv = p.st.aux.get('final_locals', {}).get(L.func.params[0][0]) if L.func.params else None
+                        if isinstance(sv, LazyObj): d['self'] = named(sv, feats)
+                    if p.kind == 'panic': d['panic'] = str(p.payload[0])
+                    return d
+                return v
+            for (vm, meth) in items:
+                try:
+                    Ls = libsym.LibRun(ms, tt, timeout); Ls.eng.ctx['lazy_field_names'] = {'std'}
+                    Ln = libsym.LibRun(mn, tt, timeout); Ln.eng.ctx['lazy_field_names'] = set()
+                    try: libsym.find_method(ms, vm, meth); libsym.find_method(mn, vm, meth)
+                    except Unsupported: continue
+                    # premise of the statement for the JIT: executable memory has been supplied by the caller
+                    pre = [BitVec(n, 64) == 1 for n in ('self.custom_exec_memory.is_some', 'self.parent.custom_exec_memory.is_some', 'self.parent.parent.custom_exec_memory.is_some')]
+                    ps = Ls.run(vm, meth); pn = Ln.run(vm, meth, pre=pre)
+                    lz = Ls.eng.ctx.get('lazy_ranges', []) + Ln.eng.ctx.get('lazy_ranges', [])
+                    for q in ps + pn: q.st.pc = list(q.st.pc) + [c for c in lz if not any(c.eq(x) for x in q.st.pc)]
+                    X.compare(f'lib/{vm}::{meth}', ps, pn, (view(Ls, {'std'}), view(Ln, set())))
+                    note(Ls.eng, ms, 'std'); note(Ln.eng, mn, 'no_std')
+                except Unsupported as e: pr.out['errors'].append(f'lib {vm}::{meth}: {e}')
         elif comp == 'jitnew':
             import props.c12a as c12a
             c12a.new_args(mn, tt, timeout, pr, cands)      # the no_std JitMemory::new (caller-supplied executable memory)
@@ -222,6 +260,159 @@ def worker(args):
         return dict(out=pr.out, cands=cands)
     except Exception as e:
         return dict(out=dict(errors=[f'c20 worker {comp} crashed: {e}\n{traceback.format_exc()[-1800:]}']), cands=[])
+
+
+# ------------------------------------------------------------------------------------------ native complement (bounded)
+def asm_corpus():
+    T = []
+    for name, (kind, opc) in sorted(asmcheck.expected_table().items()):
+        k = kind.split('(')[0]
+        if k == 'AluBinary': T += [f'{name} r1, r2', f'{name} r1, 5', f'{name} r1, -1', f'{name} r9, 0x7fffffff', f'{name} r1, 2147483648', f'{name} r1, -2147483648', f'{name} r1, -2147483649', f'{name} r11, 1', f'{name} r1', f'{name} r1, r2, r3']
+        elif k == 'AluUnary': T += [f'{name} r1', f'{name} r10', f'{name} 1', f'{name} r16']
+        elif k == 'LoadAbs': T += [f'{name} 0x10', f'{name} -1', f'{name} r1', f'{name} 4294967295', f'{name} 2147483647']
+        elif k == 'LoadInd': T += [f'{name} r1, 0x10', f'{name} r1, -2147483648', f'{name} 1, 2']
+        elif k == 'LoadImm': T += [f'{name} r1, 0x1122334455667788', f'{name} r1, -1', f'{name} r1, 18446744073709551615', f'{name} r1, 18446744073709551616', f'{name} r1, -9223372036854775808', f'{name} r1, 9223372036854775808', f'{name} r1, 0xffffffffffffffff', f'{name} r1, 0x10000000000000000']
+        elif k == 'LoadReg': T += [f'{name} r1, [r2+4]', f'{name} r1, [r2-32768]', f'{name} r1, [r2+32767]', f'{name} r1, [r2+32768]', f'{name} r1, [r2-32769]', f'{name} r1, [r2]', f'{name} r1, [r2+0x7fff]', f'{name} [r2+1], r1']
+        elif k == 'StoreImm': T += [f'{name} [r1+2], 3', f'{name} [r1-2], -3', f'{name} [r10-8], 0x7fffffff', f'{name} [r1+2], r3']
+        elif k == 'StoreReg': T += [f'{name} [r1+2], r3', f'{name} [r10-0x8000], r0', f'{name} [r1+2], 3']
+        elif k == 'JumpUnconditional': T += [f'{name} +3', f'{name} -1', f'{name} 32767', f'{name} 32768', f'{name} -32768', f'{name} -32769', f'{name} r1']
+        elif k == 'JumpConditional': T += [f'{name} r1, 2, +3', f'{name} r1, r2, -3', f'{name} r1, -1, +0x7fff', f'{name} r1, r2', f'{name} r1, 2147483648, +1']
+        elif k == 'Call': T += [f'{name} 5', f'{name} 0xffffffff', f'{name} -1', f'{name} 2147483648', f'{name} r1']
+        elif k == 'Endian': T += [f'{name} r1', f'{name} r10', f'{name} 1']
+        elif k == 'NoOperand': T += [f'{name}', f'{name} 1']
+    T += ['', '\n\n', 'foo r1', 'mov r0, 1 exit', 'exit\n^', 'lsh r', 'mov r0,1', 'mov   r0 ,\t1', 'MOV r0, 1', 'mov r0, 0x', 'mov r0, 0xg', 'mov r0, 00000000000000000000001', 'mov r0, +1', 'mov r0, - 1', 'mov r01, 1',
+          'ldxw r1, [r2 + 4]', 'ldxw r1, [r2+ 4]', 'ldxw r1, [ r2+4 ]', 'ldxw r1, [r2+-4]', 'ja +', 'exit exit', 'mov r0, 1\nexit\n', 'mov r0, 1;exit', 'mov r0, 1 # c', '\u00e9xit', 'mov r0, 9223372036854775807', 'mov r0, 9223372036854775808',
+          'mov r0, 99999999999999999999', 'mov r0, 0xffffffffffffffff', 'mov r0, 0x1ffffffffffffffff', 'mov r340282366920938463463374607431768211456, 1', 'mov r-1, 1', 'lddw r0, 0x1\nexit']
+    # layout variants: the grammar treats any run of blanks, tabs and line breaks as a separator
+    base = [t for t in T if ' ' in t and '\n' not in t][::9]
+    for t in base:
+        for rep_ in ('\n', '\t', '  ', ' \n '):
+            for i, ch in enumerate(t):
+                if ch == ' ': T.append(t[:i] + rep_ + t[i + 1:])
+        T.append(t + '\n' + t); T.append('\n' + t + '\n\n'); T.append(t.replace(', ', ','))
+    return T
+
+
+def exec_corpus():
+    """address-free deterministic programs: every register is initialised with a constant, one instruction under test, all registers folded into r0"""
+    from ref import insn, lddw
+    C = [0x0123456789abcdef, 0xfedcba9876543210, 5, 0xffffffff80000001, 63, 0x8000000000000000, 0x7fffffff, 0xffffffffffffffff, 33, 0]
+    init = b''.join(lddw(i, C[i]) for i in range(10)); fold = b''.join(insn(0xaf, 0, i) for i in range(1, 10)) + insn(0x95)
+    P = []
+    for opc in spec.VERIFIER_OK:
+        k, i = spec.classify(opc); name = spec.opname(opc)
+        if k == 'alu':
+            for (d, s_, im) in [(1, 2, 0), (3, 4, -1), (0, 3, 0x7fffffff), (6, 6, 5), (1, 9, 33), (5, 8, 64)]: P.append((f'{name}[{d},{s_},{im}]', init + insn(opc, d, s_, 0, im) + fold, []))
+        elif k == 'endian':
+            for w in (16, 32, 64): P.append((f'{name}[{w}]', init + insn(opc, 1, 0, 0, w) + fold, []))
+        elif k in ('ja', 'jcond'):
+            for (d, s_, im) in [(1, 2, 0), (3, 7, -1), (2, 2, 5), (5, 0, 0x7fffffff), (9, 9, 0)]: P.append((f'{name}[{d},{s_},{im}]', init + insn(opc, d, s_, 1, im) + insn(0xb7, 5, 0, 0, 77) + fold, []))
+        elif k == 'call':
+            P.append((f'{name}[helper]', init + insn(opc, 0, 0, 0, 1) + fold, [[1, 'h1']]))
+            P.append((f'{name}[unknown-helper]', init + insn(opc, 0, 0, 0, 9) + fold, [[1, 'h1']]))
+            P.append((f'{name}[local]', init + insn(opc, 0, 1, 0, 10) + fold + insn(0xb7, 0, 0, 0, 3) + insn(0x07, 6, 0, 0, 1) + insn(0x95), []))
+        elif k in ('ldx', 'st', 'stx', 'xadd'):
+            for off in (-8, -12):
+                body = insn(0x7b, 10, 1, -8) + insn(0x7b, 10, 3, -16)
+                if k == 'ldx': body += insn(opc, 2, 10, off)
+                elif k == 'st': body += insn(opc, 10, 0, off, 0x7fffff80)
+                elif k == 'stx': body += insn(opc, 10, 7, off)
+                else: body += insn(opc, 10, 4, -8 if off == -8 else -16)
+                P.append((f'{name}[{off}]', init + body + insn(0x79, 4, 10, -8) + insn(0x79, 5, 10, -16) + fold, []))
+            P.append((f'{name}[out-of-bounds]', init + insn(0xbf, 6, 10) + insn(0x07, 6, 0, 0, 8) + (insn(opc, 2, 6, 0) if k == 'ldx' else insn(opc, 6, 2, 0, 0)) + fold, []))
+        elif k in ('ldabs', 'ldind'):
+            for im in (0, 3, 60, 64, -1): P.append((f'{name}[{im}]', init + insn(opc, 0, 2, 0, im) + fold, []))
+    P.append(('exit-only', insn(0xb7, 0, 0, 0, 0) + insn(0x95), []))
+    return P
+
+
+NATIVE_DIFFS = []
+
+
+def part_native(rep, cands):
+    """the same corpus through both builds of the native driver; any difference in verdict / bytes / entries / value is reported (bounded complement;
+    it also reaches the combine grammar layer, which the solver part cannot)"""
+    from driver import Driver
+    import ref
+    from props import c12
+    ds = Driver.get('dev', features=('std',)); dn = Driver.get('dev', features=())
+    n = 0
+    def cmp(role, what, a, b, keys):
+        nonlocal n
+        n += 1; rep.obligations += 1
+        na = lambda r: {k: (re.sub(r'0x[0-9a-fA-F]+|\b\d{9,}\b', 'ADDR', str(r.get(k))) if k == 'msg' else r.get(k)) for k in keys}       # error texts quote process-specific addresses
+        da = na(a); db = na(b)
+        if da != db: NATIVE_DIFFS.append(f'{what}: std {str(da)[:160]} / no_std {str(db)[:160]}')
+        if da != db: cands.append(dict(role=f'native/{role}', detail=f'{what}: std {str(da)[:200]} / no_std {str(db)[:200]}', model=None, friendly=True, native=True))
+        else: rep.discharged += 1
+    for t in asm_corpus():
+        cmp('assemble:' + (t.split()[0] if t.split() else 'empty')[:12], f'assemble({t!r})', ds.request(dict(op='assemble', text=t)), dn.request(dict(op='assemble', text=t)), ('status', 'bytes'))
+    progs = [(name, prog, hs) for name, prog, hs in c12.families('quick') if len(prog) <= 8 * 600]
+    bad = []
+    for name, prog, hs in progs[::7]:
+        b = bytearray(prog); b[1] = 0x0b; bad.append((name + '/dst11', bytes(b), hs))
+        bad.append((name + '/truncated', prog[:-4], hs)); bad.append((name + '/no-exit', prog[:-8], hs))
+        b = bytearray(prog); b[0] = 0xff if b[0] != 0xff else 0x06; bad.append((name + '/opcode', bytes(b), hs))
+    mem = bytes(range(64)); mb = bytes(64)
+    for name, prog, hs in progs + bad:
+        short = name.split('[')[0]
+        a = ds.request(dict(op='load', prog=prog.hex())); b = dn.request(dict(op='load', prog=prog.hex()))
+        cmp(f'verifier:{short}', f'verifier verdict on {name}', a, b, ('new', 'set_program'))
+        if len(prog) % 8 == 0 and len(prog) > 0:
+            cmp(f'disassemble:{short}', f'to_insn_vec on {name}', ds.request(dict(op='disassemble', prog=prog.hex())), dn.request(dict(op='disassemble', prog=prog.hex())), ('status', 'insns'))
+    for name, prog, hs in exec_corpus():
+        for eng in ('interp', 'jit'):
+            if eng == 'jit' and ('out-of-bounds' in name or 'ldabs' in name or 'ldind' in name): continue      # the JIT performs no bounds checks: behaviour on such accesses is not defined by either build
+            kw = dict(vm='mbuff', mem=mem, mbuff=mb, engine=eng, helpers=hs, timeout_s=10)
+            cmp(f'{eng}:{name.split("[")[0]}', f'{eng} run of {name}', ds.run(prog, **kw), dn.run(prog, **kw), ('status', 'value', 'mem', 'mbuff', 'hlog') + (('msg',) if eng == 'interp' else ()))
+    # API call sequences (compile / reload / refused reload / custom verifier / helpers) on every VM kind
+    ta = ds.request(dict(op='api_transcript', timeout_s=60)); tb = dn.request(dict(op='api_transcript', timeout_s=60))
+    if ta.get('status') != 'ok' or tb.get('status') != 'ok' or len(ta.get('transcript', [])) != len(tb.get('transcript', [])):
+        cands.append(dict(role='native/api-transcript', detail=f'transcripts: std {str(ta)[:200]} / no_std {str(tb)[:200]}', model=None, friendly=True, native=True))
+    else:
+        for x, y in zip(ta['transcript'], tb['transcript']):
+            n += 1; rep.obligations += 1
+            if x != y: NATIVE_DIFFS.append(f'std: {x} / no_std: {y}')
+            if x != y: cands.append(dict(role='native/api:' + x.split(':')[0].replace(' ', '-')[:50], detail=f'std: {x} / no_std: {y}', model=None, friendly=True, native=True))
+            else: rep.discharged += 1
+    rep.extra['native_comparisons'] = n
+
+
+def replay_c20(c):
+    """native candidates are observations; a solver candidate is confirmed by running the instruction of its model through both native builds"""
+    if c.get('native'): return True, 'observed natively (two builds of the driver)'
+    from driver import Driver
+    from ref import insn
+    ds = Driver.get('dev', features=('std',)); dn = Driver.get('dev', features=())
+    m = c.get('model') or {}; role = c['role']; comp = role.split('/')[0]
+    if comp == 'jit-new':
+        # caller memory smaller than the code / not page aligned must give Err in the no_std build; equal results otherwise
+        F = insn(0xb4, 0, 0, 0, 1); EX = insn(0x95)
+        for nins in (1, 700, 1400, 3000):
+            for em in (4096, 8192, 4096 * 5, 1 << 24):
+                r = dn.request(dict(op='compile', vm='mbuff', prog=(F * nins + EX).hex(), engine='jit', helpers=[], isolate=True, exec_mem=em))
+                s = ds.request(dict(op='compile', vm='mbuff', prog=(F * nins + EX).hex(), engine='jit', helpers=[], isolate=True))
+                if r.get('status') not in ('ok', 'err') or (em == 1 << 24 and r.get('status') != s.get('status')):
+                    c['replay'] = dict(insns=nins + 1, exec_mem=em, no_std=r, std=s); return True, f'no_std jit_compile of {nins + 1} instructions into {em} bytes: {r.get("status")} {str(r.get("msg", ""))[:120]} (std: {s.get("status")})'
+        return False, 'native no_std compilations into small / large caller memory behave (Ok or Err)'
+    if comp == 'lib' or 'opc' not in m:
+        # API-level counterexample (what a wrapper hands to an engine / leaves in the VM): confirmed through the public API by the native complement
+        # (API call sequences and the execution corpus on all four VM kinds, both builds)
+        rel = [d for d in NATIVE_DIFFS if (role.split('/')[1].split('::')[0] in d or 'api' in d or 'jit' in d)] or NATIVE_DIFFS
+        if rel: c['replay'] = dict(native_differences=rel[:5]); return True, f'{len(rel)} native difference(s) between the builds, e.g. {rel[0][:200]}'
+        return False, 'the native complement (API sequences, execution corpus; both builds) shows no difference'
+    opc = m['opc']; rb = m.get('regbyte', (m.get('dst', 0) & 15) | ((m.get('src', 0) & 15) << 4)); off = m.get('off', 0); imm = m.get('imm', 0)
+    one = bytes([opc, rb & 0xff]) + (off & 0xffff).to_bytes(2, 'little') + (imm & 0xffffffff).to_bytes(4, 'little')
+    prog = one + (insn(0, 0, 0, 0, 0) if opc == 0x18 else b'') + insn(0xbf, 0, 0) + insn(0x95)
+    outs = []
+    for op, keys in (('load', ('new', 'set_program')), ('disassemble', ('status', 'insns'))):
+        a = ds.request(dict(op=op, prog=prog.hex())); b = dn.request(dict(op=op, prog=prog.hex()))
+        if {k: a.get(k) for k in keys} != {k: b.get(k) for k in keys}: c['replay'] = dict(prog=prog.hex(), op=op, std=a, no_std=b); return True, f'{op} differs natively'
+    for eng in ('interp', 'jit'):
+        kw = dict(vm='mbuff', mem=bytes(range(64)), mbuff=bytes(64), engine=eng, timeout_s=10)
+        a = ds.run(prog, **kw); b = dn.run(prog, **kw); keys = ('status', 'value', 'mem', 'mbuff')
+        if {k: a.get(k) for k in keys} != {k: b.get(k) for k in keys}: c['replay'] = dict(prog=prog.hex(), engine=eng, std={k: a.get(k) for k in keys + ('msg',)}, no_std={k: b.get(k) for k in keys + ('msg',)}); return True, f'{eng} run differs natively'
+    return False, 'the instruction of the model behaves the same in both native builds (registers of the model are not reproduced by this replay)'
 
 
 def run():
@@ -243,6 +434,7 @@ def run():
         if kind not in seen: seen.add(kind); ent.append((name, kind, opc))
     shard('asm', ent, 1)
     tasks.append(('jitnew', ['new'], timeout))
+    shard('lib', [(vm, me) for vm in ('mbuff', 'fixed', 'raw', 'nodata') for me in ('set_program', 'set_verifier', 'register_helper', 'register_allowed_memory', 'execute_program', 'jit_compile', 'execute_program_jit')], 2)
     with mp.Pool(nj) as pool: res = pool.map(worker, tasks, chunksize=1)
     cands = []
     for r in res:
@@ -253,7 +445,8 @@ def run():
                         'NOT covered: the combine grammar layer of asm_parser (easy_parse vs parse entry points: generic combinator code is outside the reach of the solver front ends here); helpers that exist only with std; Cranelift (std only)']
     rep.bounds = dict(interpreter='one loop iteration per opcode from an arbitrary state + prelude', verifier='check_prog_len + one iteration per opcode byte (256)', disassembler='one iteration per opcode',
                       assembler='encode/insn per instruction kind x 0..4 symbolic operands', jit='prologue + one iteration per opcode in the emitting pass (all fields, any offset)')
-    return rep.finish(cands, None)
+    part_native(rep, cands)
+    return rep.finish(cands, replay_c20)
 
 
 def replay(path):
